@@ -128,7 +128,9 @@ def load(val, import_custom_exceptions, instantiate_custom_exceptions, instantia
 
     if instantiate_custom_exceptions:
         if modname in sys.modules:
-            cls = getattr(sys.modules[modname], clsname, None)
+            # only what the module already holds: attribute lookup on a module may import on demand
+            # (module-level __getattr__, e.g. concurrent.futures.ProcessPoolExecutor)
+            cls = vars(sys.modules[modname]).get(clsname)
         else:
             cls = None
     elif modname == exceptions_module.__name__:
